@@ -554,6 +554,9 @@ pub(super) fn parse_dxf(
                 let wrap_text = matches!(child.attribute("wrapText"), Some("1"));
                 let horizontal = match child.attribute("horizontal") {
                     Some("center") => HorizontalAlignment::Center,
+                    Some("centerContinuous") => HorizontalAlignment::CenterContinuous,
+                    Some("distributed") => HorizontalAlignment::Distributed,
+                    Some("fill") => HorizontalAlignment::Fill,
                     Some("left") => HorizontalAlignment::Left,
                     Some("right") => HorizontalAlignment::Right,
                     Some("justify") => HorizontalAlignment::Justify,
@@ -562,6 +565,8 @@ pub(super) fn parse_dxf(
                 let vertical = match child.attribute("vertical") {
                     Some("bottom") => VerticalAlignment::Bottom,
                     Some("center") => VerticalAlignment::Center,
+                    Some("distributed") => VerticalAlignment::Distributed,
+                    Some("justify") => VerticalAlignment::Justify,
                     Some("top") => VerticalAlignment::Top,
                     _ => VerticalAlignment::default(),
                 };
